@@ -299,7 +299,7 @@ def uk2dt(t, tzinfo = None):
     res = parser.parse(t)
     if ambiguity.search(t) is not None:
         if res.day<13:
-            res = dt(res.year, res.day, res.month, res.hour, res.minute, res.second, res.microsecond)
+            res = res.replace(month = res.day, day = res.month) # both are at most 12. dt(y,m,d,h,m,s,us) would drop the microseconds
         elif int(t[:2].replace('-','').replace('/',''))!=res.day:
             raise ValueError('date %s is not in UK date format'%t)
     elif yyyymm.search(t) is not None or yyyymmm.search(t) is not None:
